@@ -22,3 +22,30 @@ package rdb
 //@ func types.NewListpack(data) (lp)
 //@   trusted here: allocates the cursor over data (its header parse is not decided here)
 //@   ensures fresh_cursor: lp != nil && fresh(lp)
+
+// ---- split values: every chunk of a value carries the key's expiry (C03) ----------------------
+// A value larger than the chunking threshold is handed out in several entries; the replay
+// applies the expiry per entry, so a continuation chunk without it would recreate the key as a
+// persistent partial value once the first chunk's key has expired.
+//   cont0      the loader was entered in the middle of a split value
+//   firstIter  the scan loop is in its first iteration
+//@ func util.Xrecover(err, appendErrs)
+//@   trusted frame: turns a panic into an error (no panic: nothing happens)
+//@ func Loader.newParser
+//@   trusted here: builds the object parser of the next value or chunk
+//@   ensures parser: result != nil
+
+//@ func Loader.Next
+//@   arith int
+//@   properties C03
+//@   replay rdb_splitExpiry@pkg/rdbrestore
+//@   ghost var cont0 bool = l.totalEntries != l.readEntries
+//@   ghost var firstIter bool = true
+//@   ghost var prevExpire mathint = ite(l.lastEntry != nil, l.lastEntry.ExpireAt, 0)
+//@   requires nonnil: l != nil
+//@   requires a_pending_value_is_a_value: l.totalEntries != l.readEntries ==> l.lastEntry != nil && l.lastEntry.Type < 64
+//@   modifies heap, cont0, firstIter, prevExpire
+//@   set firstIter = false after store t
+//@   ensures continuation_chunk_carries_the_keys_expiry: cont0 && entry != nil && err == nil ==> entry.ExpireAt == prevExpire
+//@   loop 1:
+//@     invariant a_continuation_returns_in_the_first_iteration: entry != nil && fresh(entry) && (cont0 ==> firstIter && entry.ExpireAt == 0 && l.totalEntries != l.readEntries && l.lastEntry != nil && l.lastEntry.Type < 64 && l.lastEntry.ExpireAt == prevExpire)
